@@ -497,7 +497,7 @@ pub(crate) fn poll_script(items: &[&str], inbound: usize, accept: bool, neg: boo
         let mut pending_ok = 0usize;
         let mut closed = false;
         // how long the task may stay asleep before it is declared asleep for good
-        let quiet = Duration::from_millis(if inbound > 0 { 400 } else { 40 });
+        let quiet = Duration::from_millis(if inbound > 0 { 2000 } else { 40 });
         let mut rounds = if neg { 2 } else { 1 };
         while rounds > 0 {
             rounds -= 1;
